@@ -1267,6 +1267,10 @@ func runC02(c *Ctx) error {
 	if err := c02GoVersion(c); err != nil {
 		return err
 	}
+	// SinkType.Is: the Lean model of findSinkRoot / findSinkType and the Lean definition of a sink type (c02_sink.go)
+	if err := runC02SinkModel(c, dir); err != nil {
+		return err
+	}
 	return nil
 }
 
